@@ -7,7 +7,7 @@ rule = ("composites BB, SLOW, ATR, MACD, PPO, KC, CE, CCI with periods 1..5 (tup
         "composite is run on a scalar and/or bar stream (walk / free / grid / ties, length 3n+20) and, in the same run, its public "
         "building blocks (SMA, SD, EMA, TR, FastStochastic, Minimum, Maximum, MAD, ATR) are constructed separately and fed by the "
         "driver exactly as documented (second-stage EMAs are fed the first-stage outputs in a second harness pass; the remaining + - * / "
-        "are done in IEEE doubles by the driver); outputs are compared at every step. Non-trivial: distinct case longer than the period")
+        "are done in IEEE doubles by the driver); outputs are compared at every step. Also: every composite built by Default::default() against parts built from the documented default parameters, and BollingerBands after a 1e6-to-100 cliff. Non-trivial: distinct case longer than the period")
 assumptions = ["the driver's own arithmetic (Python floats) is IEEE-754 binary64 with the same operation order as the documentation states"]
 
 COMPOSITES = ["BB", "SLOW", "ATR", "MACD", "PPO", "KC", "CE", "CCI"]
@@ -43,6 +43,23 @@ def gen_cases(ctx):
                         feeds = [("b", 0) + b for b in bar_stream(r, n, r.choice(["walk", "grid", "flatish"]))]
                     cases.append(Case("%s_g%d_%s%d" % (ind, gi, mode, rep), [new_op(0, ind, pr)] + feeds, dump=(0,),
                                       meta={"ind": ind, "params": pr, "mode": mode, "n": n}))
+    # seed-independent: (a) Default::default() composites are wired from the documented default parameters; (b) a cliff — three prices
+    # near 1.5e6, then an almost flat level near 100 — where BollingerBands' own running mean must keep agreeing with SMA
+    from props.C11 import DEFAULTS
+    for ind in COMPOSITES:
+        dflt = DEFAULTS[ind]
+        per = [x for x in dflt if isinstance(x, int)]
+        mm = [x for x in dflt if isinstance(x, float)]
+        pr = tuple(per + [0] * (3 - len(per))) + ((mm[0] if mm else 0.0),)
+        mode = "b" if ind in ("CE", "CCI") else "n"
+        n = 3 * max(pr[:3]) + 20
+        src = long_feed("CE" if mode == "b" else "SMA", n)
+        cases.append(Case("%s_default_%s" % (ind, mode), [("def", 0, ind)] + src, dump=(0,),
+                          meta={"ind": ind, "params": pr, "mode": mode, "n": n, "default": True}))
+    for p_ in (2, 3, 5):
+        xs = [1.5e6, 1.2e6, 1.9e6] + [100.0 + 1e-3 * (((7 * k) % 11) - 5) / 5.0 for k in range(3 * p_ + 30)]
+        cases.append(Case("BB_cliff_p%d" % p_, [new_op(0, "BB", (p_, 0, 0, 2.0))] + [("n", 0, x) for x in xs], dump=(0,),
+                          meta={"ind": "BB", "params": (p_, 0, 0, 2.0), "mode": "n", "n": len(xs)}))
     return with_scaled(cases, r)
 
 
